@@ -45,6 +45,7 @@ type VerifMgrEvent struct {
 	Sid    string
 	Ok     bool
 	Err    string
+	Locks  [][2]string // ret of sess.DestroySession: the (name, key) pairs of the entry it returned
 }
 
 type verifTracer struct {
@@ -66,6 +67,14 @@ func (t *verifTracer) ret(id int, method string, ok bool, err error) {
 	e := VerifMgrEvent{Phase: "ret", Id: id, Method: method, Ok: ok}
 	if err != nil {
 		e.Err = err.Error()
+	}
+	t.rec(e)
+}
+
+func (t *verifTracer) retLocks(id int, method string, ls []cl.Lock) {
+	e := VerifMgrEvent{Phase: "ret", Id: id, Method: method, Ok: len(ls) > 0}
+	for _, l := range ls {
+		e.Locks = append(e.Locks, [2]string{l.Name(), l.Key()})
 	}
 	t.rec(e)
 }
